@@ -16,23 +16,23 @@ func jsonMarshal(v any) ([]byte, error)    { return json.Marshal(v) }
 // See /verif/DESIGN.md section 3.
 var properties = map[string]*Property{
 	"C01": {
-		Rules:      []string{"R-HINT", "R-CTXTYPE", "R-TABLES", "R-CTX-MIRROR", "R-NAMECMP"},
-		Decided:    "the advisory size hint cannot steer which data is encoded (non-interference: hint-derived values reach no branch, loop bound, index or slice bound of the Writer data path); every context key is stored with the type every consumer asserts (no configuration accepted at construction can fail a type assertion at the first block); every codec name accepted at construction has a constructor case in every factory. Encode and decode tasks publish the same context keys (block size for the transform stage, post-transform size for the entropy stage) before creating their codecs.",
+		Rules:      []string{"R-HINT", "R-CTXTYPE", "R-TABLES", "R-CTX-MIRROR", "R-NAMECMP", "R-CTX-KEYS", "R-LIFECYCLE"},
+		Decided:    "the advisory size hint cannot steer which data is encoded (non-interference: hint-derived values reach no branch, loop bound, index or slice bound of the Writer data path); every context key is stored with the type every consumer asserts (no configuration accepted at construction can fail a type assertion at the first block); every codec name accepted at construction has a constructor case in every factory. Encode and decode tasks publish the same context keys (block size for the transform stage, post-transform size for the entropy stage) before creating their codecs. Every context key a codec constructor consults is published on the writing side and on both reading sides, so both build the same codec variant; an empty input still produces a framed stream (header before the empty-buffer return).",
 		NotDecided: "byte equality of the round trip, codec correctness, buffer sizing, expansion bounds.",
 	},
 	"C02": {
-		Rules:      []string{"R-CKSUM", "R-ERRSTATE"},
-		Decided:    "on decode the block hash is recomputed on the inverse-transformed data, compared un-narrowed with the header value and a mismatch always sets the task error (must-pass-through on every clean exit after Inverse); on encode the hash of the original block is computed before the transform and is the value written with the hasher's width; a failed batch publishes 0 bytes, so no later Read can deliver its data.",
+		Rules:      []string{"R-CKSUM", "R-ERRSTATE", "R-CANCEL"},
+		Decided:    "on decode the block hash is recomputed on the inverse-transformed data, compared un-narrowed with the header value and a mismatch always sets the task error (must-pass-through on every clean exit after Inverse); on encode the hash of the original block is computed before the transform and is the value written with the hasher's width; a failed batch publishes 0 bytes, so no later Read can deliver its data. A task that fails for any reason, including a checksum mismatch found after the block was decoded, cancels the stream, so no later Read resumes behind the failed block.",
 		NotDecided: "hash collision freedom; that returned bytes equal the original.",
 	},
 	"C03": {
-		Rules:      []string{"R-GOREC", "R-PANIC-API", "R-CLI-REC", "R-CANCEL", "R-ALLOC-GUARD", "R-ERRSTATE"},
-		Decided:    "every library goroutine installs a recover before it can panic; no declared panicking bitstream operation or explicit panic is reachable from the Reader API without crossing a recovering frame; CLI entry points run under runWithRecovery; spin waits have a cancel exit and yield; data-derived allocation sizes on the decode path are bounded.",
+		Rules:      []string{"R-GOREC", "R-PANIC-API", "R-CLI-REC", "R-CANCEL", "R-ALLOC-GUARD", "R-ERRSTATE", "R-DIV-GUARD"},
+		Decided:    "every library goroutine installs a recover before it can panic; no declared panicking bitstream operation or explicit panic is reachable from the Reader API without crossing a recovering frame; CLI entry points run under runWithRecovery; spin waits have a cancel exit and yield; data-derived allocation sizes on the decode path are bounded. A header field that is later used as a divisor is range-checked on every path of the header parser that reports success (no division by zero from a forged header).",
 		NotDecided: "termination within a time bound; implicit runtime panics (index/nil) raised in the calling goroutine outside a recovering frame.",
 	},
 	"C04": {
-		Rules:      []string{"R-NONDET", "R-JOBS-INERT", "R-TOKEN", "R-OWN", "R-HASH-PURE", "R-HINT", "R-BLOCK-BOUND"},
-		Decided:    "no nondeterministic API is reachable from the encode path; the per-task job count is unobservable in the forward direction; bytes are appended to the shared stream only while holding the hand-off token; tasks share no mutable state outside the protocol; the size hint does not steer the data path. The encode task reads its reused input slot only within the current block length.",
+		Rules:      []string{"R-NONDET", "R-JOBS-INERT", "R-TOKEN", "R-OWN", "R-HASH-PURE", "R-HINT", "R-BLOCK-BOUND", "R-JOBS-WIRE"},
+		Decided:    "no nondeterministic API is reachable from the encode path; the per-task job count is unobservable in the forward direction; bytes are appended to the shared stream only while holding the hand-off token; tasks share no mutable state outside the protocol; the size hint does not steer the data path. The encode task reads its reused input slot only within the current block length. In the Writer the job count reaches no field that the header writer puts on the wire and decides no branch or loop around their assignment (block size and header fields are independent of the job count).",
 		NotDecided: "independence from the partition into Write calls (index arithmetic in Writer.Write).",
 	},
 	"C05": {
@@ -41,8 +41,8 @@ var properties = map[string]*Property{
 		NotDecided: "cursor arithmetic of Reader.Read (consumed/available/bufferThreshold).",
 	},
 	"C06": {
-		Rules:      []string{"R-REFILL", "R-READ-FULL"},
-		Decided:    "source-side clause only: the input bitstream refills its buffer completely (loop or io.ReadFull) so a partial 64-bit word can only occur at end of source, the invariant every bulk read path relies on. Reader.Read returns a short count without error only when the stream ended (the decompressor treats a short read as end of data); every exit of the refill loop is decided by bytes obtained vs requested or by an error.",
+		Rules:      []string{"R-REFILL", "R-READ-FULL", "R-EOF-AT-END"},
+		Decided:    "source-side clause only: the input bitstream refills its buffer completely (loop or io.ReadFull) so a partial 64-bit word can only occur at end of source, the invariant every bulk read path relies on. Reader.Read returns a short count without error only when the stream ended (the decompressor treats a short read as end of data); every exit of the refill loop is decided by bytes obtained vs requested or by an error. Read answers io.EOF only after the batch function ran in that call and delivered nothing (a zero-length or buffered read never reports end of stream).",
 		NotDecided: "Write/Read buffer-length independence (arithmetic); sink-side chunking.",
 	},
 	"C07": {
@@ -56,8 +56,8 @@ var properties = map[string]*Property{
 		NotDecided: "counter restoration arithmetic in DefaultOutputBitStream.Close.",
 	},
 	"C09": {
-		Rules:      []string{"R-EOS-ONLY", "R-EOS-ERR", "R-CLOSE-ORDER", "R-PANIC-API", "R-ERRSTATE"},
-		Decided:    "the only clean exits of a decode task are cancel, end marker, range skip and normal completion; exhausting the source is an error (panic) that the recovering frames turn into a reported error; the writer emits the end marker on every successful close.",
+		Rules:      []string{"R-EOS-ONLY", "R-EOS-ERR", "R-CLOSE-ORDER", "R-PANIC-API", "R-ERRSTATE", "R-BATCH-ONLY", "R-EOF-AT-END"},
+		Decided:    "the only clean exits of a decode task are cancel, end marker, range skip and normal completion; exhausting the source is an error (panic) that the recovering frames turn into a reported error; the writer emits the end marker on every successful close. The Reader's batch function reports success only after a batch of tasks ran (which ends only at the end marker) or after a cancellation; io.EOF is produced only behind that.",
 		NotDecided: "bit-level behaviour of the partial last word in pull().",
 	},
 	"C10": {
@@ -66,8 +66,8 @@ var properties = map[string]*Property{
 		NotDecided: "algorithmic changes that keep every constant; tables computed at init; encoder-only changes.",
 	},
 	"C11": {
-		Rules:      []string{"R-SKIP-ORDER", "R-SKIP-RANGE", "R-ERRSTATE", "R-COMPACT"},
-		Decided:    "skipped blocks consume their bytes and pass the token before the range test, are never decoded nor delivered; block ids are compared with from/to as the half-open interval [from,to); all-skipped batches are refilled. The slot cursor of the result compaction advances only for non-skipped blocks.",
+		Rules:      []string{"R-SKIP-ORDER", "R-SKIP-RANGE", "R-ERRSTATE", "R-COMPACT", "R-BATCH-ONLY"},
+		Decided:    "skipped blocks consume their bytes and pass the token before the range test, are never decoded nor delivered; block ids are compared with from/to as the half-open interval [from,to); all-skipped batches are refilled. The slot cursor of the result compaction advances only for non-skipped blocks. The range bounds reach the skip test un-narrowed (also when carried in task fields); the batch function never concludes 'past the end' from header counts.",
 		NotDecided: "mapping of block k to byte offsets; cursor compaction arithmetic.",
 	},
 	"C12": {
@@ -81,19 +81,20 @@ var properties = map[string]*Property{
 		NotDecided: "in-bounds output and inverse exactness (numeric).",
 	},
 	"C14": {
-		Rules:      []string{"R-BS-CLOSED"},
-		Decided:    "last sentence only: closed bitstreams refuse further operations (Close stores the closed state; every operation that touches the buffer tests it first).",
-		NotDecided: "value/position equality of writer and reader (bit arithmetic).",
+		Rules:      []string{"R-BS-CLOSED", "R-BITCOUNT"},
+		Decided:    "closed bitstreams refuse further operations (Close stores the closed state; every operation that touches the buffer tests it first). Counter clause, by an affine-equality analysis of the methods: the value returned by Written()/Read() advances by exactly the bit count of WriteBits, WriteArray, ReadBit and ReadBits and these return that count; flush, refill, HasMoreToRead and both Close methods conserve it at every return; a failed Close of the writer restores every integer field.",
+		NotDecided: "the values read back and the byte image (bit arithmetic); the counter clause for WriteBit and ReadArray (they depend on inequality invariants the affine domain cannot express); guards are ignored, so a wrong loop bound is not seen.",
+		Assumptions: []string{"integer arithmetic in the bitstreams does not wrap", "a signed residual counter tested against 0 is never negative (A4)", "a unit-step counting loop exits exactly at its bound (A5)"},
 	},
 	"C15": {
-		Rules:      []string{"R-TABLES", "R-NAMECMP", "R-LEVELS", "R-CHAIN-PACK", "R-NAMESET"},
-		Decided:    "name->type->name is the identity on canonical names and upper-cases before lookup; every type maps to a constructor in every factory; no codec variant is selected by a case-sensitive comparison of the user's spelling. In GetType the slot of a token in the packed chain advances only for non-NONE tokens (NONE fillers are removed).",
+		Rules:      []string{"R-TABLES", "R-NAMECMP", "R-LEVELS", "R-CHAIN-PACK", "R-NAMESET", "R-CTX-KEYS"},
+		Decided:    "name->type->name is the identity on canonical names and upper-cases before lookup; every type maps to a constructor in every factory; no codec variant is selected by a case-sensitive comparison of the user's spelling. In GetType the slot of a token in the packed chain advances only for non-NONE tokens (NONE fillers are removed). The names a codec variant is selected from (ctx transform/entropy) are published on every side.",
 		NotDecided: "removal of NONE fillers (loop in GetType); stream byte equality.",
 	},
 	"C17": {
-		Rules:      []string{"R-LIFECYCLE", "R-CLOSE-ORDER"},
-		Decided:    "Write/Read after Close fail at entry before any effect; Close is idempotent at entry; an empty stream is still framed (header before the empty-buffer return); closed is set only after successful close.",
-		NotDecided: "counters, returned lengths, call-history semantics.",
+		Rules:      []string{"R-LIFECYCLE", "R-CLOSE-ORDER", "R-BITCOUNT"},
+		Decided:    "Write/Read after Close fail at entry before any effect; Close is idempotent at entry; an empty stream is still framed (header before the empty-buffer return); closed is set only after successful close. The bit counters behind GetWritten/GetRead are conserved by flush, refill and Close at every return including the failing ones (hence monotone across failures), and a failed bitstream Close restores the state a retry starts from (affine-equality analysis, R-BITCOUNT).",
+		NotDecided: "returned lengths, call-history semantics, the byte counters of the stream layer above the bitstream.",
 	},
 	"C18": {
 		Rules:      []string{"R-GLOBAL-RO", "R-OWN", "R-HASH-PURE", "R-TOKEN", "R-BWT-WORKER", "R-BUF-FRESH", "R-GOREC"},
